@@ -358,6 +358,9 @@ func c06Seq(c *fw.Ctx, i int) {
 		switch r.Intn(10) {
 		case 0, 1: // SkipSamples
 			n := uint32(r.PickU64(0, 1, 1<<31, 1<<32-1, r.U64()))
+			if tsKnown && r.Chance(1, 4) {
+				n = uint32(r.PickU64(0, 1, 1<<32-1, 1<<31)) - ts // steer the running timestamp to 0, 1, 2^32-1, 2^31: values like any other
+			}
 			trace = append(trace, fmt.Sprintf("SkipSamples(%d)", n))
 			if pv, st := fw.Guard(func() { p.SkipSamples(n) }); pv != nil {
 				c.Fail("C06/panic/SkipSamples/"+fw.PanicFunc(st), fmt.Sprintf("SkipSamples panicked: %v", pv), wit("stack", st))
